@@ -443,7 +443,9 @@ def analyse(hist, rm: RM, outcome, cfg=None, want=None) -> Analysis:
         elif kind == "set_event_processed":
             _, sid, t = r
             if cfg.get("rt_factor") is not None and isinstance(t, int) and t < until:
-                dem[sid].setdefault(rm.lift(sid, t), []).append(("event",))
+                # (an accepted event is a demand like any other: no consumer may have begun a step at or
+                # after the time its output is due - the real-time cap on progress guarantees that)
+                new_demand(sid, rm.lift(sid, t), ("event",), q)
 
     A.steps = steps
     A.dem = dem
